@@ -203,7 +203,7 @@ def run_harness(unit, fn, tier='quick', timeout=300, mem_gb=24, default_data=4, 
         elif kind == 'data':
             us[lname] = default_data + 1
         else:
-            us[lname] = 10 if 'memcmp' in lname else 26
+            us[lname] = 26
     for rf in unit['info'].get('recursive', []):
         us[rf] = recursion
     # functions reachable through pointers (vtables: destroy, mem_usage, ...) can recurse through indirect calls
@@ -235,7 +235,7 @@ def run_harness(unit, fn, tier='quick', timeout=300, mem_gb=24, default_data=4, 
     except Exception as e:
         return dict(fn=fn, status='inconclusive', why='show-properties failed: %r %s' % (e, (out + err)[-400:]), stats=total, unwindset=us)
 
-    def query(props, want_trace, slice_ok=True):
+    def query(props, want_trace, slice_ok=True, use_solver=True, tmo=None):
         cmd = [x for x in base if slice_ok or x != '--slice-formula'] + ['--unwinding-assertions', '--json-ui', '--verbosity', '8']
         if want_trace:
             cmd += ['--trace']
@@ -243,10 +243,12 @@ def run_harness(unit, fn, tier='quick', timeout=300, mem_gb=24, default_data=4, 
             cmd += ['--unwindset', ','.join('%s:%d' % kv for kv in sorted(us.items()))]
         for pr in props:
             cmd += ['--property', pr]
-        if solver:
+        if solver and use_solver:
             cmd += list(solver)
         cmd += list(extra_flags)
-        rc, out, err, dt = sh(['/usr/bin/time', '-f', 'YKRSS %M', '-o', '/dev/stderr'] + cmd, timeout=timeout, mem_gb=mem_gb)
+        if os.environ.get('YK_DEBUG_CMD'):
+            print('CMD', ' '.join(cmd), flush=True)
+        rc, out, err, dt = sh(['/usr/bin/time', '-f', 'YKRSS %M', '-o', '/dev/stderr'] + cmd, timeout=tmo or timeout, mem_gb=mem_gb)
         total['queries'] += 1
         total['wall_s'] += dt
         m = re.search(r'YKRSS (\d+)', err or '')
@@ -317,7 +319,26 @@ def run_harness(unit, fn, tier='quick', timeout=300, mem_gb=24, default_data=4, 
                                line=(r.get('sourceLocation') or {}).get('line')))
     # ---- query B: every reachability witness must FAIL (i.e. be reachable)
     reach_ok, reach_missing, samples = [], [], []
+    fast_done = False
     if reach:
+        # B (fast path): all witnesses in ONE incremental run of CBMC's built-in solver, unsliced, with traces.  The witness
+        # queries are satisfiable and easy; with the external solver CBMC re-solves from scratch per failing property.
+        res, why = query(reach, True, slice_ok=False, use_solver=False, tmo=max(60, timeout // 3))
+        if res is not None and not any(r['status'] == 'FAILURE' and '.unwind.' in r['property'] for r in res):
+            fast_done = True
+            for r in res:
+                d = r.get('description', '')
+                if not d.startswith('reach:'):
+                    continue
+                if r['status'] == 'FAILURE':
+                    reach_ok.append(d)
+                    if len(samples) < 4:
+                        samples.append(dict(reach=d, inputs=trace_inputs(r.get('trace'))))
+                else:
+                    reach_missing.append(d)
+        else:
+            log.append('witness fast path not conclusive (%s): falling back to per-property queries' % (why or 'unwinding'))
+    if reach and not fast_done:
         # B1: reachability of every witness (sliced, no trace)
         for rounds in range(max_refine + 1):
             res, why = query(reach, False)
